@@ -114,6 +114,7 @@ fn gen_alg(rng: &mut Rng) -> MRegP {
     match rng.below(8) {
         0 => MRegP::Private(-65537 - rng.below(1000) as i64),
         1 => MRegP::Text(["custom", "", "ES256"][rng.below(3)].to_string()),
+        2 | 3 => MRegP::Assigned(*rng.pick(all_algs())),
         _ => MRegP::Assigned(*rng.pick(ALGS)),
     }
 }
@@ -154,13 +155,13 @@ pub fn gen_header(rng: &mut Rng, cfg: &GenCfg, depth: usize) -> MHeader {
             h.crit.push(if rng.chance(1, 4) {
                 MReg::Text("crit".into())
             } else {
-                MReg::Assigned(*rng.pick(&HEADER_PARAMS[..HEADER_PARAMS.len() - 1]))
+                MReg::Assigned(if rng.bool() { *rng.pick(all_header_params()) } else { *rng.pick(&HEADER_PARAMS[..HEADER_PARAMS.len() - 1]) })
             });
         }
     }
     if rng.chance(1, 3) {
         h.content_type = Some(if rng.bool() {
-            MReg::Assigned(*rng.pick(CONTENT_FORMATS))
+            MReg::Assigned(if rng.bool() { *rng.pick(all_content_formats()) } else { *rng.pick(CONTENT_FORMATS) })
         } else {
             MReg::Text(["text/plain", "application/cbor", "a/b"][rng.below(3)].to_string())
         });
@@ -287,7 +288,7 @@ pub fn gen_key(rng: &mut Rng, cfg: &GenCfg) -> MKey {
     }
     if rng.chance(1, 3) {
         for _ in 0..rng.range(1, 3) {
-            k.key_ops.insert(if rng.chance(1, 5) { MReg::Text("op".into()) } else { MReg::Assigned(*rng.pick(KEY_OPS)) });
+            k.key_ops.insert(if rng.chance(1, 5) { MReg::Text("op".into()) } else { MReg::Assigned(*rng.pick(all_key_ops())) });
         }
     }
     if rng.chance(1, 4) {
